@@ -13,7 +13,7 @@ const dsP = "emitter/doublesign."
 
 func init() {
 	register("C21", "other", "T8 DecisionTable (field coverage; scenario evaluation of the parallel-instance truth table), T19 SaturatingArith (no-wrap edge facts), T4 GuardedBy (normalised comparisons, disjunctive edges), inlined view of helpers (parameter binding)",
-		"Decides the decision-table shape of the double-sign guard: no peers and unfinished P2P sync lead only to error returns; each of the five timestamps (last connected, P2P synced, became validator, external self-event created / detected) has a test since(t) < threshold that feeds the remaining time threshold - since(t) of the same timestamp, with a non-nil error, into the maximum keeper, and no emission is permitted on a path that neither recorded that wait nor saw the test fail. A row is the set of apply calls guarded by the test of one timestamp (the row is found by its guard, so the wait may be held in a re-assigned variable, be the cap constant, or be recorded by several applies, one per case). The test, the wait computation and the keeper update may live in SyncedToEmit itself or in helper functions / local closures it calls: the rule works on the inlined view (parameters and receivers of a helper are bound to the caller's argument expressions, single-definition locals are looked through), so the same facts are decided whether the five tests are written out or share one helper. The keeper replaces its value only by a larger wait and the function returns the keeper's wait and error. The remaining-time subtraction is saturating: since(t) is the saturating Time.Sub and is very negative for a far-future timestamp, so the plain difference wraps negative and emission would be permitted; wherever a value reaching apply is the plain difference threshold - since, every path from the subtraction to that use takes an edge that excludes wrap-around (since >= c with c >= 0, difference >= threshold, or difference >= c with c >= 0, whichever alternative of a disjunctive edge holds), any other value reaching it is the constant MaxInt64 or zero; a test of the saturated value alone (since == MinInt64) does not qualify, because differences just below saturation wrap too. Parallel-instance detection is decided by scenario evaluation: DetectParallelInstance (with predicate helpers / closures inlined, locals looked through) is evaluated in three-valued logic under each truth assignment to the two tests Created.Before(Startup) and since(Created) < threshold; a condition the scenario does not decide is followed both ways, and every return reachable in a scenario yields exactly !before && recent (so an additional early exit, or a differently spelled age test, is reported with the offending return and the condition it was reached over). Concrete time arithmetic beyond wrap-around is not decided.",
+		"Decides the decision-table shape of the double-sign guard: no peers and unfinished P2P sync lead only to error returns; each of the five timestamps (last connected, P2P synced, became validator, external self-event created / detected) has a test since(t) < threshold that feeds the remaining time threshold - since(t) of the same timestamp, with a non-nil error, into the maximum keeper, and no emission is permitted on a path that neither recorded that wait nor saw the test fail. A row is the set of apply calls guarded by the test of one timestamp (the row is found by its guard, so the wait may be held in a re-assigned variable, be the cap constant, or be recorded by several applies, one per case). The test, the wait computation and the keeper update may live in SyncedToEmit itself or in helper functions / local closures it calls: the rule works on the inlined view (parameters and receivers of a helper are bound to the caller's argument expressions, single-definition locals are looked through), so the same facts are decided whether the five tests are written out or share one helper. The keeper replaces its value only by a larger wait and the function returns the keeper's wait and error. The remaining-time subtraction is saturating: since(t) is the saturating Time.Sub and is very negative for a far-future timestamp, so the plain difference wraps negative and emission would be permitted; wherever a value reaching apply is the plain difference threshold - since, every path from the subtraction to that use takes an edge that excludes wrap-around (since >= c with c >= 0, difference >= threshold, or difference >= c with c >= 0, whichever alternative of a disjunctive edge holds), any other value reaching it is the constant MaxInt64 or zero; a test of the saturated value alone (since == MinInt64) does not qualify, because differences just below saturation wrap too. Parallel-instance detection is decided by scenario evaluation: DetectParallelInstance (with predicate helpers / closures inlined, locals looked through) is evaluated in three-valued logic under each truth assignment to the two tests Created.Before(Startup) and since(Created) < threshold; a condition the scenario does not decide is followed both ways, and every return reachable in a scenario yields exactly !before && recent (so an additional early exit, or a differently spelled age test, is reported with the offending return and the condition it was reached over). The age helper SyncStatus.Since itself is decided on its inlined view: every return yields <receiver>.Now.Sub(<parameter>), the saturating time.Time.Sub (an age computed from UnixNano/Unix readings in 64-bit integer arithmetic wraps for timestamps more than 2^63 ns from Now and makes a far-future timestamp look old); an age helper under another name is recognised by the same inlined form. Concrete time arithmetic beyond wrap-around is not decided.",
 		[]string{"time.Time.Sub saturates at the minimum/maximum Duration (time package contract)", "threshold is positive"},
 		runC21)
 }
@@ -166,6 +166,15 @@ func c21Resolve(fr *c21Frame, e ast.Expr) (*c21Frame, ast.Expr) {
 			fr, e = fr.Up, b
 			continue
 		}
+		// a parameter of an enclosing activation captured by a function literal (the literal's frame hangs
+		// below the activation of the function that contains it): it stands for that activation's argument
+		if up := c21Binder(fr, v); up != nil {
+			if n, addr := c19AssignCount(up.F, v); n != 0 || addr {
+				return fr, e
+			}
+			fr, e = up.Up, up.Bind[v]
+			continue
+		}
 		r := resolveLocal(fr.F, e)
 		if r == e {
 			// a variable captured by a closure frame belongs to an enclosing frame
@@ -174,6 +183,20 @@ func c21Resolve(fr *c21Frame, e ast.Expr) (*c21Frame, ast.Expr) {
 		e = r
 	}
 	return fr, e
+}
+
+// c21Binder finds the activation above fr that binds v as one of its parameters, when fr's function is a
+// literal written inside that activation's function (so v is a captured variable of the literal).
+func c21Binder(fr *c21Frame, v *types.Var) *c21Frame {
+	if fr.F.Lit == nil {
+		return nil
+	}
+	for up := fr.Up; up != nil; up = up.Up {
+		if _, bound := up.Bind[v]; bound && up.Up != nil && c19Within(up.F.Body, fr.F.Body.Pos()) {
+			return up
+		}
+	}
+	return nil
 }
 
 // c21View holds the roles of SyncedToEmit's parameters.
@@ -222,17 +245,57 @@ func (v *c21View) stampOf(fr *c21Frame, e ast.Expr) string {
 }
 
 // sinceOf: e denotes status.Since(status.X) (or its body status.Now.Sub(status.X)); returns X.
-func (v *c21View) sinceOf(fr *c21Frame, e ast.Expr) string {
+func (v *c21View) sinceOf(fr *c21Frame, e ast.Expr) string { return v.sinceOfDepth(fr, e, 2) }
+
+// c21IsDuration: the expression has type time.Duration.
+func c21IsDuration(f *core.FuncInfo, e ast.Expr) bool {
+	tv, ok := f.Info().Types[e]
+	if !ok || tv.Type == nil {
+		return false
+	}
+	nt, ok := tv.Type.(*types.Named)
+	return ok && nt.Obj().Pkg() != nil && nt.Obj().Pkg().Path() == "time" && nt.Obj().Name() == "Duration"
+}
+
+func (v *c21View) sinceOfDepth(fr *c21Frame, e ast.Expr, depth int) string {
 	fr2, r := c21Resolve(fr, e)
 	call, ok := r.(*ast.CallExpr)
-	if !ok || len(call.Args) != 1 {
+	if !ok {
+		return ""
+	}
+	name := calleeName(fr2.F, call)
+	if name != dsP+"SyncStatus.Since" && name != "time.Time.Sub" {
+		// an age helper under any name (declared function or local closure): every return of its inlined
+		// body is the age of one and the same timestamp
+		if depth <= 0 || !c21IsDuration(fr2.F, call) {
+			return ""
+		}
+		sub := c21EnterCall(fr2, call)
+		if sub == nil {
+			return ""
+		}
+		stamp := ""
+		for i, rp := range sub.F.ReturnPoints() {
+			rs := rp.Node().(*ast.ReturnStmt)
+			if len(rs.Results) != 1 {
+				return ""
+			}
+			s := v.sinceOfDepth(sub, rs.Results[0], depth-1)
+			if s == "" || (i > 0 && s != stamp) {
+				return ""
+			}
+			stamp = s
+		}
+		return stamp
+	}
+	if len(call.Args) != 1 {
 		return ""
 	}
 	sel, ok := ast.Unparen(call.Fun).(*ast.SelectorExpr)
 	if !ok {
 		return ""
 	}
-	switch calleeName(fr2.F, call) {
+	switch name {
 	case dsP + "SyncStatus.Since":
 		if !v.isVar(fr2, sel.X, v.status) {
 			return ""
@@ -364,7 +427,7 @@ func runC21(c *core.Ctx) {
 		root := &c21Frame{F: f}
 		var applies []c21Apply
 		c21ApplySites(root, 3, &applies)
-		c.ExpectAtLeast("apply sites in SyncedToEmit", len(applies), 5)
+		c.ExpectAtLeast("apply sites in SyncedToEmit", len(applies), 1)
 		accepting := func(pt core.Point) bool {
 			r, ok := pt.Node().(*ast.ReturnStmt)
 			return ok && !errRet(r)
@@ -429,6 +492,9 @@ func runC21(c *core.Ctx) {
 
 	// truth table of DetectParallelInstance, by scenario evaluation (c21_parallel.go)
 	c.Clause("C21.parallel", func() { c21ParallelClause(c) })
+
+	// the age helper is the saturating time subtraction (c21_since.go)
+	c.Clause("C21.since", func() { c21SinceClause(c) })
 }
 
 func joinStr(xs []string) string {
